@@ -5,7 +5,7 @@ LEVEL = "model_checking"
 
 def run(ck):
     q = ck.quick()
-    fc.run_family(ck, "C04", ["panic2", "panicclose2", "backlog1", "backlog2"] if q else list(fc.fs.SCENARIOS),
+    fc.run_family(ck, "C04", ["panic2", "panicclose2", "backlog1", "backlog2", "backlogjoin1"] if q else list(fc.fs.SCENARIOS),
                   ["C04"], 200 if q else 2000, 600 if q else 20000)
 
 
